@@ -328,7 +328,8 @@ class Run(Oracles):
             if nk != 0 or spec.get("pass_kwargs"):
                 kw["kwargs"] = rm.kwargs
             return pool.apply(func, **kw)
-        it = w.make_iter(rm, {"n": spec.get("n", 0), "pull_ops": spec.get("pull_ops"), "as_list": spec.get("as_list")})
+        it = w.make_iter(rm, {"n": spec.get("n", 0), "pull_ops": spec.get("pull_ops"), "as_list": spec.get("as_list"),
+                              "raise_at": spec.get("iter_raise_at", -1)})
         if "nc" in spec:
             kw["num_concurrent"] = spec["nc"]
         return getattr(pool, kind)(func, it, **kw)
@@ -337,8 +338,9 @@ class Run(Oracles):
         """Explicit group names; some imitate the generated pattern on purpose."""
         if isinstance(g, str):
             return g
-        pats = ["grp-%d", "apply-w-group-%d", "map-w-group-%d", "start-group-%d", "starmap-w-group-%d", "apply-x-group-%d"]
-        return pats[g[0] % len(pats)] % g[1]
+        pats = ["grp-%d", "apply-w-group-%d", "map-w-group-%d", "start-group-%d", "starmap-w-group-%d", "apply-x-group-%d", "", "default", "0"]
+        pat = pats[g[0] % len(pats)]
+        return pat % g[1] if "%" in pat else pat
 
     def op_spawn(self, op: dict, ctx: dict) -> None:
         w, L = self.w, self.L
